@@ -75,6 +75,8 @@ type jobSpec struct {
 	// label, "file" = file_sd_configs (kvass takes the targets from the discovery updates it is fed, whatever
 	// mechanism produced them)
 	SD string `json:"sd,omitempty"`
+	// NoFollow: follow_redirects: false
+	NoFollow bool `json:"noFollow,omitempty"`
 }
 
 type grpSpec struct {
@@ -97,6 +99,9 @@ func (j *jobSpec) yaml(indent string) string {
 	}
 	if j.Path != "" {
 		w("  metrics_path: %s", q(j.Path))
+	}
+	if j.NoFollow {
+		w("  follow_redirects: false")
 	}
 	if len(j.Params) > 0 {
 		w("  params:")
